@@ -147,11 +147,18 @@ def parse_ns_out(text):
                 di, dm = dec_result(impl, 3), dec_result(model, 3)
             elif "real-binary:list_keyboards" in what:
                 di, dm = [unhex(x) for x in impl.split(",")], [unhex(x) for x in model.split(",")]
+            elif what.endswith((":opens-first", ":opens-all")):
+                # observed: names of the nodes of /dev/input the run opened; model: the selected nodes that exist, in order
+                # (opens-first: only selected nodes may be opened and the first one must be; opens-all: exactly these)
+                di = {"opened_nodes": [unhex(x) for x in impl.split(",") if x != "-"]}
+                dm = {"selected_existing_nodes_in_order": [unhex(x) for x in model.split(",") if x != "-"]}
             else:
                 di, dm = dec_selection(impl), dec_selection(model)
             inp = read_spec(f.get("scenario", ""))
             inp["what"] = what
-            diffs.append({"engine": ENGINE, "class": "SELECT", "input": inp, "impl": di, "model": dm})
+            inp["observation"] = {"open": "which nodes the run opened (inotify)", "log": "the verbose log", "value": "return value of the public function",
+                                  "listout": "stdout of list_keyboards"}.get(f.get("basis"), f.get("basis"))
+            diffs.append({"engine": ENGINE, "class": "SELECT", "basis": f.get("basis"), "input": inp, "impl": di, "model": dm})
         elif line.startswith("HIT "):
             f = kv(line)
             m = re.search(r" observed=(.*?) expected=(.*)$", line)
@@ -169,7 +176,8 @@ def parse_ns_out(text):
             note = {"C16.virtual": "a device whose sysfs path lies under /devices/virtual/input/ was listed/selected",
                     "C16.select_all": "--all-keyboards did not select exactly the keyboard-like, non-virtual, non-excluded devices that have a node",
                     "C16.select_devfile": "--dev-file .. --only-if-keyboard did not select exactly the given nodes that are such devices"}.get(clause, "")
-            hits.append({"engine": ENGINE, "clause": clause, "known_class": None, "input": inp,
+            inp["observation"] = {"open": "which nodes the run opened (inotify)", "log": "the verbose log"}.get(f.get("basis"), f.get("basis"))
+            hits.append({"engine": ENGINE, "clause": clause, "known_class": None, "basis": f.get("basis"), "input": inp,
                          "observed": paths(obs), "expected": exp if clause == "C16.virtual" else paths(exp), "note": note})
         elif line.startswith("NSSUMMARY "):
             for k, v in re.findall(r"(\w+)=(\d+)", line):
@@ -185,6 +193,31 @@ def parse_ns_out(text):
         elif line.startswith("NSFAIL") or line.startswith("NOTE") or line.startswith("Fatal error"):
             notes.append(line[:300])
     return diffs, hits, summary, samples, notes
+
+
+def apply_log_policy(diffs, hits, summary):
+    """The verbose log is a SECONDARY observation: if, anywhere in the run, the log of the harness probes (resp. of the
+    real binary) did not have the expected shape or contradicted what the run opened, every judgement that rests on that
+    log is dropped (reworded messages are not a property violation).  Returns (diffs, hits, note)."""
+    bad_probe = summary.get("ns_log_unparsed_probe", 0) + summary.get("ns_log_disagree_probe", 0)
+    bad_real = summary.get("ns_log_unparsed_real", 0) + summary.get("ns_log_disagree_real", 0)
+
+    def keep(x, who):
+        if x.get("basis") != "log":
+            return True
+        return (bad_real if "real-binary" in str(who) else bad_probe) == 0
+    d2 = [x for x in diffs if keep(x, x["input"].get("what"))]
+    h2 = [x for x in hits if keep(x, x["input"].get("via"))]
+    if os.environ.get("DBG_LOGPOLICY"):
+        for x in diffs + hits:
+            if x not in d2 and x not in h2:
+                print("DROPPED", x.get("clause"), x["input"].get("what"), x["input"].get("via"), json.dumps(x.get("impl") or x.get("observed"))[:200], "||", json.dumps(x.get("model") or x.get("expected"))[:200])
+    note = {"verbose_log_observations_used": summary.get("ns_log_used", 0) if not (bad_probe or bad_real) else "partly or not at all (see below)",
+            "verbose_log_unparsed": summary.get("ns_log_unparsed_probe", 0) + summary.get("ns_log_unparsed_real", 0),
+            "verbose_log_contradicting_the_opens": summary.get("ns_log_disagree_probe", 0) + summary.get("ns_log_disagree_real", 0),
+            "log_based_judgements_dropped": (len(diffs) - len(d2)) + (len(hits) - len(h2)),
+            "open_observations": summary.get("ns_open_observations", 0)}
+    return d2, h2, note
 
 
 def build_real_binary(ctx):
@@ -216,6 +249,7 @@ def namespace_run(ctx, work, tier, res_stats):
     if rc != 0 or "NSSUMMARY" not in out2:
         return [], [], {}, [], "model-side ns checker failed: " + out2[-400:]
     diffs, hits, summary, samples, notes = parse_ns_out(out2)
+    diffs, hits, res_stats["namespace_observations"] = apply_log_policy(diffs, hits, summary)
     fails = [n for n in notes if n.startswith("NSFAIL")]
     if fails:
         res_stats["namespace_run"] = "skipped: " + fails[0]
@@ -370,6 +404,8 @@ def replay(ctx, rp):
         print("--dev-file args: %s   --exclude: %s" % (json.dumps(inp.get("dev_file_args")), json.dumps(inp.get("excludes"))))
         rc, out2, _ = sh("%s ns %s %s" % (ctx["model_exe"], os.path.join(work, "ns"), os.path.join(work, "ns.out")), timeout=600)
         d, h, s, _, notes = parse_ns_out(out2)
+        d, h, pol = apply_log_policy(d, h, s)
+        print("observations: %s" % json.dumps(pol))
         for x in d:
             print("DIFF %s: real=%s model=%s" % (x["input"].get("what"), json.dumps(x["impl"], ensure_ascii=False), json.dumps(x["model"], ensure_ascii=False)))
         for x in h:
